@@ -246,18 +246,26 @@ def part_active_gates(ctx, pq, quick, rng):
                                    f"finite differences of the NumPy simulation by {np.abs(got - exp).max() if got.shape == exp.shape else 'shape'}", replay)
                         ok = False
                     counters[kind] += 1
+                # Gates applied through the Bloch-Messiah split are truncated slightly differently by each connector (see C09), so the derivative of
+                # a connector's result is compared with finite differences of the SAME connector's forward pass; where the forward passes agree
+                # with NumPy to 1e-9 this is the property's oracle itself, and the NumPy differences are used
+                def fd_of(conn_factory):
+                    f1, f0 = np.asarray(run(conn_factory(), p0 + h)), np.asarray(run(conn_factory(), p0 - h))
+                    own = (f1 - f0) / (2 * h)
+                    return fd if np.abs(own - fd).max() < 1e-7 else own
                 try:
+                    fd_tf = fd_of(pq.TensorflowConnector)
                     x = tf.Variable(p0, dtype=tf.float64)
                     with tf.GradientTape(persistent=True) as tape:
                         pr = run(pq.TensorflowConnector(), x)
                         obj = tf.reduce_sum(pr * tf.constant(w, dtype=pr.dtype))
-                    judge("tf.jacobian", tape.jacobian(pr, x), fd)
-                    judge("tf.gradient", tape.gradient(obj, x), np.dot(fd, w))
+                    judge("tf.jacobian", tape.jacobian(pr, x), fd_tf)
+                    judge("tf.gradient", tape.gradient(obj, x), np.dot(fd_tf, w))
                 except Exception as e:  # noqa  -- no derivative obtained: counted, not judged
                     k_ = f"tf:{type(e).__name__}:{type(base[mstep]).__name__}"
                     ctx.notes.setdefault("derivative_not_obtainable", {})[k_] = ctx.notes.setdefault("derivative_not_obtainable", {}).get(k_, 0) + 1
                 try:
-                    judge("jax", jax.jacrev(lambda xx: run(pq.JaxConnector(), xx))(jnp.asarray(p0, dtype=jnp.float64)), fd)
+                    judge("jax", jax.jacrev(lambda xx: run(pq.JaxConnector(), xx))(jnp.asarray(p0, dtype=jnp.float64)), fd_of(pq.JaxConnector))
                 except Exception as e:  # noqa  -- e.g. "Differentiation rule for 'schur' not implemented": no derivative obtained
                     k_ = f"jax:{type(e).__name__}:{type(base[mstep]).__name__}"
                     ctx.notes.setdefault("derivative_not_obtainable", {})[k_] = ctx.notes.setdefault("derivative_not_obtainable", {}).get(k_, 0) + 1
